@@ -55,6 +55,7 @@ class SubstituteInterpretation(Interpretation):
         super().__init__("subs")
         self.subs = subs
         self.base_interpretation = base_interpretation
+        self.fresh = None  # names the term being rebuilt introduces itself
         assert isinstance(subs, tuple)
         assert all(isinstance(v, Funsor) for k, v in subs)
 
@@ -65,7 +66,8 @@ class SubstituteInterpretation(Interpretation):
     def interpret(self, cls, *args):
         with self.base_interpretation:
             expr = cls(*args)
-            fresh_subs = tuple((k, v) for k, v in self.subs if k in expr.fresh)
+            fresh = expr.fresh if self.fresh is None else expr.fresh & self.fresh
+            fresh_subs = tuple((k, v) for k, v in self.subs if k in fresh)
             if fresh_subs:
                 expr = instrument.debug_logged(expr.eager_subs)(fresh_subs)
             if instrument.PROFILE:
@@ -90,12 +92,15 @@ def substitute(expr, subs):
 
     env = interpreter.anf(expr, stop)
 
-    with SubstituteInterpretation(subs, interpreter.get_interpretation()):
+    with SubstituteInterpretation(subs, interpreter.get_interpretation()) as interp:
         for key, value in env.items():
             args = tuple(
                 c if interpreter.is_atom(c) else env.get(c, c)
                 for c in interpreter.children(value)
             )
+            # Substitute only for names the original term introduces, not for
+            # names that substituted values brought in (simultaneity).
+            interp.fresh = getattr(value, "fresh", None)
             if isinstance(value, (tuple, frozenset)):  # TODO absorb this into interpret
                 env[key] = type(value)(args)
             else:
